@@ -184,6 +184,11 @@ def ctrsbox_pgd(xopt, g, H, projections, delta, d_max_iters=100, d_tol=1e-10, us
 
     # Initial guess of L is norm(Hessian)
     L = np.linalg.norm(H, 2)
+    if L == 0.0:
+        # Zero Hessian (e.g. all interpolation values equal, so J=0): the step length 1/L below would be infinite
+        if np.linalg.norm(g) == 0.0:
+            return d, gnew, crvmin  # flat model, no step can reduce it
+        L = np.linalg.norm(g) / delta  # linear model: first step goes to the trust region boundary
 
     # trust region is a ball of radius delta around xopt
     trproj = lambda w: pball(w, xopt, delta)
